@@ -354,8 +354,11 @@ def judge(ctx, res, cases, outs):
 
 
 # ------------------------------------------------------------------------------------------------- splitter
-def split_case(res, rows, infmt, outfmt):
-    """splitter.main on one multi-model sample; returns the driver requests for the bracketing check"""
+def split_case(res, rows, infmt, outfmt, corr=None, fits=True):
+    """splitter.main on one multi-model sample; returns the driver requests for the bracketing check.
+    `corr`: list collecting what is needed for the correspondence with the splitter model (`split.run`);
+    `fits=False`: the table needs fitting, so the written rows are not the input rows (only the model comparison,
+    the bracketing and the C10 limits are checked)"""
     import contextlib
     from rnapolis import splitter
     from rnapolis.parser_v2 import parse_cif_atoms, parse_pdb_atoms
@@ -381,29 +384,73 @@ def split_case(res, rows, infmt, outfmt):
         finally:
             sys.argv = argv
         real_out = infmt if outfmt == "keep" else outfmt
-        res.count("splitter:%s->%s" % (infmt, real_out))
+        res.count("splitter:%s->%s%s" % (infmt, real_out, "" if fits else ":needs-fit"))
+        written = {}
+        listing = sorted(os.listdir(os.path.join(d, "out"))) if os.path.isdir(os.path.join(d, "out")) else []
         for m in models:
             want = [r for r in rows if r["model"] == m]
             p = os.path.join(d, "out", "sample_model_%d.%s" % (m, "pdb" if real_out == "PDB" else "cif"))
             if not os.path.exists(p):
-                res.fail("spec", "C09:splitter:%s-%s:missing-model" % (infmt, real_out), inp,
-                         "no file for model %d: %s" % (m, buf.getvalue()[-300:]))
+                if fits:
+                    res.fail("spec", "C09:splitter:%s-%s:missing-model" % (infmt, real_out), inp,
+                             "no file for model %d: %s" % (m, buf.getvalue()[-300:]))
                 continue
             text = open(p).read()
             with warnings.catch_warnings():
                 warnings.simplefilter("ignore")
                 back = g4.rows_of(parse_pdb_atoms(text) if real_out == "PDB" else parse_cif_atoms(text))
-            wrows = [dict(r, _raw=(r["x"] / 1000, r["y"] / 1000, r["z"] / 1000, r["occ"] / 100, r["b"] / 100)) for r in want]
-            dd = g4.compare_rows(wrows, back)
-            if dd is not None:
-                res.fail("spec", "C09:splitter:%s-%s:%s" % (infmt, real_out, dd[1]), inp,
-                         "model %d: field %s of row %d: %r -> %r" % (m, dd[1], dd[0], dd[2], dd[3]))
+            written[m] = [g4.plain(r) for r in back]
+            if fits:
+                wrows = [dict(r, _raw=(r["x"] / 1000, r["y"] / 1000, r["z"] / 1000, r["occ"] / 100, r["b"] / 100)) for r in want]
+                dd = g4.compare_rows(wrows, back)
+                if dd is not None:
+                    res.fail("spec", "C09:splitter:%s-%s:%s" % (infmt, real_out, dd[1]), inp,
+                             "model %d: field %s of row %d: %r -> %r" % (m, dd[1], dd[0], dd[2], dd[3]))
+            elif real_out == "PDB":
+                # C10 at this observation point: whatever is written satisfies the limits
+                bad = [r for r in back if r["serial"] is None or r["resSeq"] is None or r["serial"] > 99999 or r["resSeq"] > 9999]
+                if bad:
+                    res.fail("spec", "C09:splitter:%s-%s:limits" % (infmt, real_out), inp, "model %d: %r" % (m, g4.plain(bad[0])))
             if real_out == "PDB":
                 lines = text.split("\n")
                 if lines and lines[-1] == "":
                     lines.pop()
-                reqs.append((["pdb.bracketed"] + kinds_of_text(lines, want), inp, m))
+                reqs.append((["pdb.bracketed"] + kinds_of_text(lines, back if not fits else want), inp, m))
+        if corr is not None and all(g4.wire_ok(r) for r in rows):
+            corr.append({"req": ["split.run", infmt, outfmt] + [g4.wire(r) for r in rows], "inp": inp, "written": written,
+                         "ext": ".pdb" if real_out == "PDB" else ".cif", "listing": listing})
     return reqs
+
+
+def judge_split_corr(ctx, res, corr):
+    """written files (parsed back) against the splitter model: one file per model number, named by it, holding the table
+    the model hands to the writer (charges compared as numbers: a mmCIF-derived table spells them differently)"""
+    def norm(r):
+        return dict(g4.plain(r), charge=g4.charge_norm(r["charge"]))
+    for c, resp in zip(corr, ctx.driver.ask([c["req"] for c in corr])):
+        files = {}
+        for part in resp.split("|") if resp else []:
+            head, _, body = part.partition("=")
+            kind, _, rows = body.partition(":")
+            files[head] = (kind, [g4.unwire(x) for x in rows.split(";")] if rows and kind != "skipped" else [])
+        want_names = sorted("sample_model_%s" % h for h, (k, _) in files.items() if k != "skipped")
+        if sorted(c["listing"]) != want_names:
+            res.fail("corr", "C09:corr:splitter:files", c["inp"], "tool wrote %r, model %r" % (c["listing"], want_names))
+            continue
+        for head, (kind, rows) in files.items():
+            if kind == "skipped":
+                continue
+            m = int(head[: -len(c["ext"])]) if head.endswith(c["ext"]) else None
+            got = c["written"].get(m)
+            if got is None:
+                res.fail("corr", "C09:corr:splitter:files", c["inp"], "model writes %s, the tool wrote no such file" % head)
+                break
+            if [norm(r) for r in rows] != [norm(r) for r in got]:
+                k = next((i for i, (a, b) in enumerate(zip(rows, got)) if norm(a) != norm(b)), -1)
+                res.fail("corr", "C09:corr:splitter:table", c["inp"],
+                         "file of model %s: row %d model=%r tool=%r (rows: model %d, tool %d)" % (
+                             m, k, rows[k] if k >= 0 else None, got[k] if k >= 0 else None, len(rows), len(got)))
+                break
 
 
 def judge_split(ctx, res, reqs):
@@ -416,13 +463,23 @@ def run_splitter(ctx, res):
     """splitter.main on multi-model samples, all format combinations"""
     rng = ctx.rng
     reqs = []
+    corr = []
     for k in range(ctx.pick(6, 40)):
         rows = [r for r in g4.random_table(rng, nmodels=rng.randint(2, 4), nchains=rng.randint(1, 3)) if g4.within_limits(r)]
         for infmt in ("PDB", "mmCIF"):
             for outfmt in ("keep", "PDB", "mmCIF"):
                 res.case(("splitter", k, infmt, outfmt), nontrivial=True)
-                reqs += split_case(res, rows, infmt, outfmt)
+                reqs += split_case(res, rows, infmt, outfmt, corr)
+    # mmCIF tables that need fitting per model (multi-character chain ids, numbers > 9999): C10 through splitter.main
+    for k in range(ctx.pick(3, 20)):
+        rows = g4.random_table(rng, nmodels=rng.randint(2, 3), nchains=rng.randint(1, 3), multichar_chains=True,
+                               big_numbers=rng.random() < 0.5)
+        rows = [r for r in rows if g4.within_limits(dict(r, chain="A", resSeq=1, serial=1))]
+        for outfmt in ("PDB", "mmCIF"):
+            res.case(("splitter-fit", k, outfmt), nontrivial=True)
+            reqs += split_case(res, rows, "mmCIF", outfmt, corr, fits=False)
     judge_split(ctx, res, reqs)
+    judge_split_corr(ctx, res, corr)
 
 
 # ------------------------------------------------------------------------------------------------- entry points
